@@ -123,6 +123,34 @@ def parse_air(path, regions, src_name):
     return per_fn
 
 
+
+class verus_slot:
+    """Machine-wide cap on concurrently running Verus processes (each is a rustc + up to eight Z3 processes, 1-3 GB together).
+    Without it, several checks started at the same time put 100+ of them on a 62 GB machine without swap; a front end that cannot
+    allocate panics and the unit would come out undecided.  Slots are lock files created on demand."""
+    N = int(os.environ.get("VERIF_MAX_VERUS", "10"))
+
+    def __enter__(self):
+        import fcntl
+        d = os.environ.get("VERIF_SLOT_DIR", "/tmp/verif-verus-slots")
+        os.makedirs(d, exist_ok=True)
+        while True:
+            for i in range(self.N):
+                f = open(os.path.join(d, "slot-%d.lock" % i), "w")
+                try:
+                    fcntl.flock(f, fcntl.LOCK_EX | fcntl.LOCK_NB)
+                    self.f = f
+                    return self
+                except OSError:
+                    f.close()
+            time.sleep(0.2)
+
+    def __exit__(self, *a):
+        import fcntl
+        fcntl.flock(self.f, fcntl.LOCK_UN)
+        self.f.close()
+        return False
+
 def run_verus(unit, src, wdir, tier, seed=None, rlimit=None, extra=None, log_air=True, multiple_errors=8):
     logdir = os.path.join(wdir, unit + ".log")
     shutil.rmtree(logdir, ignore_errors=True)
@@ -136,7 +164,8 @@ def run_verus(unit, src, wdir, tier, seed=None, rlimit=None, extra=None, log_air
         cmd += ["--smt-option", "smt.random_seed=%d" % seed]
     if extra:
         cmd += extra
-    rc, so, se, dt = sh(cmd, cwd=wdir, timeout=1800)
+    with verus_slot():
+        rc, so, se, dt = sh(cmd, cwd=wdir, timeout=1800)
     res = {"cmd": " ".join(cmd), "rc": rc, "wall_s": round(dt, 2), "diags": [], "json": None, "logdir": logdir, "raw_err": se}
     try:
         res["json"] = json.loads(so)
@@ -324,6 +353,9 @@ def do_unit(unit, ucfg, repo, wdir, tier, prop):
         return R
     vres = vr["json"].get("verification-results", {})
     fails, und = classify(vr["diags"], regions, src_name)
+    if "panicked at" in (vr.get("raw_err") or "") and "rust_verify" in (vr.get("raw_err") or ""):
+        # the verifier itself crashed (seen once under memory exhaustion): whatever it reported is incomplete
+        und.append({"message": "verus crashed (internal panic); results of this unit are incomplete: " + vr["raw_err"][-600:]})
     if vres.get("encountered-vir-error") or (not vres.get("success") and not fails and not und):
         und.append({"message": "verus front-end error (rc=%s): %s" % (vr["rc"], vr["raw_err"][-1500:])})
     # canaries: regions named mustfail_* contain lemmas that MUST NOT verify (e.g. `requires cr(v) ensures false`);
